@@ -1,12 +1,12 @@
 (* C09 — Integer constant expressions in cdef evaluate as C evaluates them.
-   Statements only; proofs in C09/Proofs.v, C09/Proofs2.v.
+   Statements only; proofs in C09/Proofs.v, C09/Proofs2.v, C09/Proofs3.v.
    py_eval, c_div, binop, unop, simple_escapes: cffi's evaluator, C09/Gen.v regenerated from
    src/cffi/cparser.py on every run + the hand model of literal scanning (C09/Model.v).
    c_eval: typed C evaluation (C09/Spec.v; None = undefined behaviour / not a C constant expression;
    the boolean is the "exact" flag: no conversion changed a value, no unsigned operation wrapped). *)
 From Coq Require Import ZArith NArith String Ascii List Bool Lia.
 Import ListNotations.
-From Cffi Require Import C09.Prim C09.Gen C09.Spec C09.Model C09.Proofs C09.Proofs2.
+From Cffi Require Import C09.Prim C09.Gen C09.Spec C09.Model C09.Proofs C09.Proofs2 C09.Proofs3.
 Open Scope Z_scope.
 Open Scope string_scope.
 
@@ -46,6 +46,52 @@ Print Assumptions C09_literals.
 Theorem C09_number_literals : forall s t v, number_literal s = Some (t, v) -> lit_value s = Ok v.
 Proof. exact number_literal_agree. Qed.
 Print Assumptions C09_number_literals.
+
+(* the '#define NAME literal' and 'static const T NAME = [-]literal;' paths (Parser._add_integer_constant, cparser.py:482;
+   hand model Model.add_integer_constant, tied by the define/static-const contexts of the correspondence run and by C30's
+   [tie-macro]): EVERY C integer literal (any radix, any u/l suffix in either case; C11 6.4.4.1) that is not of gcc's binary
+   form 0b... gets the value C gives it, and '-' in front gives its negation.  (binary_form s = the second character is
+   b/B; such a text is never offered to this function: _r_int_literal does not match it, and the example below shows that
+   the function would raise ValueError on it.)  The value v is the mathematical value of the literal: which C TYPE the
+   literal has (and therefore what -literal is in C when that type is unsigned) is outside this statement. *)
+(* [tie-eval] *)
+Theorem C09_define_value : forall s t v, number_literal s = Some (t, v) -> binary_form s = false ->
+  add_integer_constant s = Ok v /\ add_integer_constant (45%N :: s) = Ok (- v).
+Proof. exact define_value. Qed.
+Print Assumptions C09_define_value.
+
+Example C09_example_define :
+  let txt (s : string) := map (fun a => N_of_ascii a) (list_ascii_of_string s) in
+  number_literal (txt "0X7fUL") = Some (T RLong false, 127) /\ binary_form (txt "0X7fUL") = false /\
+  add_integer_constant (txt "0X7fUL") = Ok 127 /\ add_integer_constant (txt "-0X7fUL") = Ok (-127) /\
+  number_literal (txt "0755") = Some (T RInt true, 493) /\ add_integer_constant (txt "0755") = Ok 493 /\
+  number_literal (txt "0u") = Some (T RInt false, 0) /\ add_integer_constant (txt "-0u") = Ok 0 /\
+  number_literal (txt "18446744073709551615ull") = Some (T RLLong false, 18446744073709551615) /\
+  add_integer_constant (txt "18446744073709551615ull") = Ok 18446744073709551615 /\
+  (* the excluded form *)
+  number_literal (txt "0b11") = Some (T RInt true, 3) /\ binary_form (txt "0b11") = true /\
+  add_integer_constant (txt "0b11") = Err ValueError.
+Proof. vm_compute. repeat split; reflexivity. Qed.
+
+(* Array-length context, out-of-line modes (type strings parsed at run time, API-mode cdefs): after the parser has
+   evaluated the length, it travels in the opcode stream to realize_c_type_or_func_now(), case _CFFI_OP_ARRAY, and from
+   there to new_array_type().  Gen.length_path is REGENERATED on every run (tools/props/c09_lenpath.py follows the value
+   textually through casts, local variables and static helper functions and records the declared C type of each hop; what
+   it cannot follow gets width 0).  Theorem: every length in [0, 2^63) arrives unchanged.  The proof needs every hop to
+   be at least 64 bits wide (all_wide, decided by computation on the regenerated list): narrowing any variable, cast or
+   parameter on the way (e.g. `int length`) breaks this obligation.  Trusted: the data-flow extraction itself (regular
+   expressions over the C text, LP64 width table) and that the C compiler implements the declared types. *)
+(* [regenerated] *)
+Theorem C09_length_path_preserves : forall v, 0 <= v < 2 ^ 63 -> through length_path v = v.
+Proof. exact length_path_preserves. Qed.
+Print Assumptions C09_length_path_preserves.
+
+(* the path is not empty and ends in new_array_type's Py_ssize_t; what a 32-bit hop would do (seed C09-c's symptoms:
+   char[0x100000010] gets 16 items, a length of 2^31 becomes negative = open array) *)
+Example C09_example_length_path :
+  (3 <=? length length_path)%nat = true /\ all_wide length_path = true /\
+  through [("int length", (true, 32))] (2 ^ 32 + 16) = 16 /\ through [("int length", (true, 32))] (2 ^ 31) = - 2 ^ 31.
+Proof. vm_compute. repeat split; reflexivity. Qed.
 
 (* Central statement, proved on the sub-class "exact".  cenv = the integer constants declared earlier with
    their C types (enumerators: int), env = cffi's table _int_constants, holding the same values.
